@@ -15,9 +15,12 @@ from .common import CONTRACTS, Infra, REPO, VERIF, log, read, sha256, write
 LEVELS = json.load(open(os.path.join(CONTRACTS, 'properties.json')))
 
 
-def load_units():
+def load_units(only_enabled=True):
     units = {}
+    enabled = set(read(os.path.join(CONTRACTS, 'units', 'ENABLED')).split())
     for p in sorted(glob.glob(os.path.join(CONTRACTS, 'units', '*.py'))):
+        if only_enabled and os.path.basename(p)[:-3] not in enabled:
+            continue
         spec = importlib.util.spec_from_file_location('unit_' + os.path.basename(p)[:-3], p)
         mod = importlib.util.module_from_spec(spec)
         spec.loader.exec_module(mod)
@@ -283,7 +286,7 @@ def finish(pid, tier, seed, sel, results, cmds, solver_time, assumptions, units,
 
 def debug_unit(name, keep):
     from . import verus as verus_mod
-    u = load_units()[name]
+    u = load_units(only_enabled=False)[name]
     if u['backend'] == 'verus':
         try:
             vr = verus_mod.run_unit(u, u['obligations'], 'quick', 0, keep=keep)
